@@ -1581,6 +1581,12 @@ class Executor:
                 fields.update(kwargs)
                 yield VObj(obj.__name__, fields, fresh=True), st
                 return
+            if isinstance(obj, type) and obj.__module__ == "yarl._quoting_c_pyx" and not args and not kwargs \
+                    and "__init__" not in obj.__dict__:
+                # a C struct declared in the .pyx (cdef struct): a fresh record of its fields
+                fields = {k: NONE for k, v in obj.__dict__.items() if not k.startswith("__")}
+                yield VObj(obj.__name__, fields, fresh=True), st
+                return
             import re as _re
             if isinstance(getattr(obj, "__self__", None), _re.Pattern) and obj.__name__ == "search":
                 from . import lib
